@@ -37,7 +37,7 @@ const ruleC28 = "C22 generator plus literal assets at the edge of the lexer rule
 func TestC28(t *testing.T) {
 	st := stats.New("C28", "exploration", ruleC28)
 	defer st.Write(t)
-	n := stats.N(3000, 20000)
+	n := stats.N(8000, 30000)
 	st.Set("requested_checks", n)
 	parsers := map[string]ledgercontroller.NumscriptParser{
 		"machine":     ledgercontroller.NewDefaultNumscriptParser(),
